@@ -13,8 +13,8 @@
                                     `$id` with the same URI silently replaces the first in `resolvedURIs`); without
                                     it "designates" is ambiguous and the resolver may pick a resource in which the
                                     fragment selects nothing although it selects something in the other one.
-    D  `Doc.RefsDesignate`          every `$ref` and every `$dynamicRef` (lexically) designates a subschema of the
-                                    document
+    D  `Doc.RefsDesignate`          every `$ref` and, in a 2020-12 document, every `$dynamicRef` (lexically) designates
+                                    a subschema of the document
 
   Each condition is decidable; where the declarative form quantifies over lineages a `Bool` checker is given
   next to it (soundness of the checkers: JSV/Proofs/ResCompleteWF.lean).
@@ -77,11 +77,12 @@ def Doc.UniqueIds (D : Doc) (retrieval : Uri.Url) : Prop :=
 
 /-! ### D: references -/
 
-/-- every `$ref` / `$dynamicRef` of the schemas `nodes` designates a subschema of the document -/
+/-- every `$ref` / `$dynamicRef` of the schemas `nodes` designates a subschema of the document (`$dynamicRef` is a
+    keyword of 2020-12 only: in a draft-07 document it is an unknown keyword and need not designate anything) -/
 def Doc.RefsDesignate (D : Doc) (retrieval : Uri.Url) (nodes : List NodeId) : Prop :=
   ∀ id ∈ nodes, ∀ n, D.st.get? id = some n →
     (n.ref ≠ "" → ∃ t, D.Designates retrieval id n.ref t) ∧
-    (n.dynamicRef ≠ "" → ∃ t, D.Designates retrieval id n.dynamicRef t)
+    (D.draft = .d2020 → n.dynamicRef ≠ "" → ∃ t, D.Designates retrieval id n.dynamicRef t)
 
 /-! ### Bool checkers for W5, W6: enumerate the subschemas with the base URI in force at each -/
 
@@ -171,7 +172,8 @@ structure DocWF (env : Env) (top : NodeId) (b : Uri.Url) (D : Doc) (ret : Uri.Ur
   ids : D.IdsOk ret
   uniq : D.UniqueIds ret
   refs : ∀ id ∈ Go.allNodes D.st (D.st.size + 2) [D.root], ∀ n, D.st.get? id = some n →
-    (n.ref ≠ "" → D.RefGood env top b ret id n.ref) ∧ (n.dynamicRef ≠ "" → D.RefGood env top b ret id n.dynamicRef)
+    (n.ref ≠ "" → D.RefGood env top b ret id n.ref) ∧
+    (D.draft = .d2020 → n.dynamicRef ≠ "" → D.RefGood env top b ret id n.dynamicRef)
 
 /-- the whole universe: the top document and every document of the Loader table -/
 structure UniverseOk (env : Env) (top : NodeId) (dr : Draft) (b : Uri.Url) : Prop where
